@@ -160,7 +160,8 @@ func selectShape(q string, tables map[string][]string) (cols []string, table str
 		if t.K == kPunct && (t.Text == ")" || t.Text == "]") {
 			depth--
 		}
-		if depth == 0 && t.K == kIdent && strings.EqualFold(t.Text, "from") {
+		// "t.from" is a column reference, not the FROM keyword
+		if depth == 0 && t.K == kIdent && strings.EqualFold(t.Text, "from") && !(i > 0 && toks[i-1].Text == ".") {
 			from = i
 			break
 		}
